@@ -701,7 +701,11 @@ theorem targeted_options_stay_on_their_listener (addr : Bytes) (listen : List By
       (optionsFor (some addr) listen a).srvRanges = none ∧ (optionsFor (some addr) listen a).strict = false ∧
       (optionsFor (some addr) listen a).clientIPHeaders = none) ∧
     (listen.contains addr = true → optionsFor (some addr) listen a = a) ∧ optionsFor none listen a = a := by
-  refine ⟨fun h => ?_, fun h => ?_, rfl⟩ <;> simp [optionsFor, h]
+  refine ⟨fun h => ?_, fun h => ?_, rfl⟩
+  · have hn : ¬ addr ∈ listen := by simpa using h
+    simp [optionsFor, hn]
+  · have hm : addr ∈ listen := by simpa using h
+    simp [optionsFor, hm]
 
 /-- the `private_ranges` shortcut stands for exactly the documented private and loopback ranges
     (regenerated from internal/ranges.go) -/
